@@ -204,6 +204,27 @@ def notCrossable (v : Option Rat) (barriers : List Rat) : Bool :=
   | none => true
   | some x => barriers.any (fun b => x == b)
 
+/-- a cell or barrier value as the caller wrote it: NaN, ±∞ or an exact real number (whatever
+    dtype the surface has and whatever Python numbers the barrier list holds) -/
+inductive Val where
+  | nan | pinf | ninf
+  | fin (q : Rat)
+  deriving DecidableEq
+
+/-- `==` on exact values: NaN equals nothing, an infinity only itself -/
+def Val.eq : Val → Val → Bool
+  | .fin a, .fin b => a == b
+  | .pinf, .pinf => true
+  | .ninf, .ninf => true
+  | _, _ => false
+
+/-- `_is_not_crossable` on exact values: a cell is a barrier iff it is NaN or its value is one of
+    the listed numbers (no dtype conversion of the list) -/
+def notCrossableV (v : Val) (barriers : List Val) : Bool :=
+  match v with
+  | .nan => true
+  | x => barriers.any (fun b => Val.eq x b)
+
 /-! ### exact costs `a + b√2` with natural `a`, `b` (Dijkstra instance: heuristic 0) -/
 
 abbrev Q2 := Nat × Nat
